@@ -505,6 +505,94 @@ theorem nodeParsed_items (tag head : Str) (items : List (Str × Str)) (htag : is
   rw [hparse]
   simp only [cellKids, map_shallow_kids]
 
+/-! ## `subRefs` (the `re.sub` of `insert_xpaths`) -/
+
+def SubRTo (refs : List (Str × Str)) (e out : Str) : Prop :=
+  ∀ fuel, e.length < fuel → subRefs refs fuel e = some out
+
+theorem SubRTo.nil (refs : List (Str × Str)) : SubRTo refs [] [] := by
+  intro fuel h
+  cases fuel with
+  | zero => simp at h
+  | succ f => simp [subRefs]
+
+theorem SubRTo.plain {refs : List (Str × Str)} {c : Char} {r out : Str} (h : SubRTo refs r out)
+    (hc : c ≠ '$' ∨ ∀ r', r ≠ '{' :: r') : SubRTo refs (c :: r) (c :: out) := by
+  intro fuel hf
+  cases fuel with
+  | zero => simp at hf
+  | succ f =>
+    have hr := h f (by simp at hf; omega)
+    rw [subRefs.eq_def]
+    split
+    · simp_all
+    · simp_all
+    · rename_i heq
+      simp at heq
+      rcases hc with hc | hc
+      · exact absurd heq.1 hc
+      · exact absurd heq.2 (hc _)
+    · rename_i heq
+      simp_all
+
+theorem SubRTo.ref {refs : List (Str × Str)} {r rest out n v : Str} {ls : Bool}
+    (hm : matchRef r = some (ls, n, rest)) (hv : varRepl refs ls n = some v) (hlen : rest.length ≤ r.length)
+    (h : SubRTo refs rest out) : SubRTo refs ('$' :: '{' :: r) (v ++ out) := by
+  intro fuel hf
+  cases fuel with
+  | zero => simp at hf
+  | succ f =>
+    have hr := h f (by simp at hf; omega)
+    rw [subRefs.eq_def]
+    simp [hm, hv, hr]
+
+theorem SubRTo.text {refs : List (Str × Str)} {X out : Str} (h : SubRTo refs X out) (hX : ∀ r', X ≠ '{' :: r')
+    (t : Str) (ht : hasDollarBrace t = false) : SubRTo refs (t ++ X) (t ++ out) := by
+  induction t with
+  | nil => simpa using h
+  | cons c t ih =>
+    have ht' : hasDollarBrace t = false := by
+      unfold hasDollarBrace at ht
+      split at ht <;> simp_all
+    have := ih ht'
+    refine SubRTo.plain this ?_
+    by_cases hc : c = '$'
+    · right
+      subst hc
+      intro r' h'
+      cases t with
+      | nil => exact hX r' (by simpa using h')
+      | cons d t =>
+        have hd : d = '{' := by
+          have := congrArg List.head? h'
+          simpa using this
+        subst hd
+        simp [hasDollarBrace] at ht
+    · exact Or.inl hc
+
+theorem subRTo_tail (refs : List (Str × Str)) : ∀ (tail items : List (Str × Str)), TailOk tail →
+    resolve refs tail = some items → SubRTo refs (Cell.tailText tail) (itemsAttr items)
+  | [], items, _, hr => by
+    simp [resolve] at hr
+    subst hr
+    simpa [Cell.tailText, itemsAttr] using SubRTo.nil refs
+  | (n, t) :: rest, items, hok, hr => by
+    obtain ⟨hn, ht, hrest⟩ := hok
+    simp only [resolve] at hr
+    split at hr
+    · rename_i v items' hv hres
+      simp at hr
+      subst hr
+      have ih := subRTo_tail refs rest items' hrest hres
+      have h1 := SubRTo.text ih (tailText_head rest) t ht
+      simp only [Cell.tailText, itemsAttr, refMarkup, List.cons_append, List.append_assoc]
+      refine SubRTo.ref (matchRef_name n _ hn) (by
+        unfold varReplName at hv
+        cases hs : startsWith n lastSavedTag <;> simp_all) ?_ h1
+      simp only [List.length_append, List.length_cons]
+      omega
+    · simp at hr
+
 /-! ## instance() expressions: when `replace_with_output` is the identity -/
 
 theorem startsWith_append_self (p b : Str) : startsWith (p ++ b) p = true := by
